@@ -1194,7 +1194,7 @@ func (w *world) search(o *vh.Out, r *vh.Rng, rq request) {
 					continue
 				}
 				if i > 0 && ranked(full[i-1]) && full[i-1].Score != nil && *full[i-1].Score < *x.Score {
-					fail("plain-order", fmt.Sprintf("plain text query (weight %v): scores not highest first at position %d: %v then %v", wt, i, *full[i-1].Score, *x.Score))
+					fail("plain-order", fmt.Sprintf("plain text query (weight %v): scores not highest first at position %d: %v then %v [the order of a plain ranking request is produced by its index (text: C05) and must be passed through unchanged by the answer pipeline (C06); seen through Shard.SearchPoints this oracle cannot tell which of the two reordered - if ./check C05 reports an order violation too, it is the index]", wt, i, *full[i-1].Score, *x.Score))
 				}
 				if want := *x.Score * wt; okey(want) != okey(x.HybridScore) {
 					fail("plain-hybrid", fmt.Sprintf("plain text query: node %d has score %v, weight %v, _hybridScore %v", x.NodeId, *x.Score, wt, x.HybridScore))
@@ -1205,7 +1205,7 @@ func (w *world) search(o *vh.Out, r *vh.Rng, rq request) {
 					continue
 				}
 				if i > 0 && ranked(full[i-1]) && full[i-1].Distance != nil && *full[i-1].Distance > *x.Distance {
-					fail("plain-order", fmt.Sprintf("plain vector query (weight %v): distances not lowest first at position %d: %v then %v", wt, i, *full[i-1].Distance, *x.Distance))
+					fail("plain-order", fmt.Sprintf("plain vector query (weight %v): distances not lowest first at position %d: %v then %v [the order of a plain ranking request is produced by its index (vector: C03 / C04) and must be passed through unchanged by the answer pipeline (C06); seen through Shard.SearchPoints this oracle cannot tell which of the two reordered - if the index's own check reports an order violation too, it is the index]", wt, i, *full[i-1].Distance, *x.Distance))
 				}
 				if want := -1 * wt * *x.Distance; okey(want) != okey(x.HybridScore) {
 					fail("plain-hybrid", fmt.Sprintf("plain vector query: node %d has distance %v, weight %v, _hybridScore %v", x.NodeId, *x.Distance, wt, x.HybridScore))
